@@ -84,6 +84,14 @@ def check(case):
         )
 
     fit_batch(b1, True)
+    if case.get("alpha2") is not None:
+        # alpha re-tuned between steps (as the fine-tuning example does from a callback): the next step must use
+        # the estimator's *current* alpha
+        alpha = float(case["alpha2"])
+        if case.get("alpha_via") == "attr":
+            est.alpha = alpha
+        else:
+            est.set_params(alpha=alpha)
     eng = est.backendEngine_
     P, A = eng.predictor_model, eng.adversary_model
     _need(isinstance(P, torch.nn.Module) and isinstance(A, torch.nn.Module), "engine models are not torch modules")
@@ -200,6 +208,8 @@ def check(case):
         tags.append("zero_dLA_nonzero_dLP")
     if alpha == 0.0:
         tags.append("alpha0")
+    if case.get("alpha2") is not None and float(case["alpha2"]) != float(case["alpha"]):
+        tags.append("alpha_changed_between_steps")
     if "instance" in (case["pred_opt"], case["adv_opt"]):
         tags.append("opt_instance")
     if "callable" in (case["pred_opt"], case["adv_opt"]):
@@ -252,6 +262,8 @@ def _cases(draw):
         "lr": draw(lrs), "lr_p": draw(lrs), "lr_a": draw(lrs),
         "alpha": draw(st.one_of(st.sampled_from([0.0, 1.0, 0.5, 3.0]), st.floats(0.0, 3.0, allow_nan=False),
                             st.floats(0.0, 3.0, allow_nan=False))),
+        "alpha2": draw(st.sampled_from([None, None, 0.0, 0.5, 2.0])),
+        "alpha_via": draw(st.sampled_from(["set_params", "attr"])),
         "constraints": draw(st.sampled_from(["demographic_parity", "equalized_odds"])),
         "random_state": draw(st.integers(0, 1000)),
         "container": draw(st.sampled_from(["ndarray", "ndarray", "list", "series"])),
